@@ -166,6 +166,8 @@ RES_QUICK = Grammar(top_atoms=("int", "None"), elem_atoms=("int",), containers=(
 def decode_case(t, g, n_calls, full_matrix=False):
     if full_matrix == "single":
         kind, rw, flag = CONFIGS[0]
+    elif isinstance(full_matrix, tuple):
+        kind, rw, flag = CONFIGS[full_matrix[t.take(len(full_matrix))]]
     elif full_matrix:
         kind = KINDS[t.take(len(KINDS))]
         rw = REWRITERS[t.take(len(REWRITERS))]
@@ -175,7 +177,7 @@ def decode_case(t, g, n_calls, full_matrix=False):
     calls = []
     for i in range(n_calls):
         arg = build_value(t, g.for_index(i) if hasattr(g, "for_index") else g)
-        res = build_value(t, g if full_matrix is True else RES_QUICK) if (i == 0 or full_matrix is True) and full_matrix != "single" else None
+        res = build_value(t, g if full_matrix is True else RES_QUICK) if (i == 0 or full_matrix is True) and full_matrix != "single" and not isinstance(full_matrix, tuple) else None
         calls.append((arg, res))
     return kind, rw, flag, calls
 
@@ -441,7 +443,11 @@ tape_harness("c01_realrun", [("t", 2)], {"k": "int"}, realrun_body, globals())
 
 G_DICT = Grammar(top_atoms=("int", "None"), elem_atoms=("int", "str"), containers=("dict_str", "dict_int", "dict_mixed", "list"), max_size=2,
                  depth=1, str_keys=("a", "b", "c"), dict_max=3)
+# None, ints and tuples of 0..2 ints / bools (1 == True and they hash alike): three calls make unions of same-element tuples of
+# different lengths next to None (RewriteLargeUnion's tuple path) and equal tuples of different element classes (value-keyed caches)
+G_TUP = Grammar(top_atoms=("None", "int"), elem_atoms=("int", "bool"), containers=("tuple",), max_size=2, depth=1)
 _CFG = {
+    "c01_tuples": (c01_body, G_TUP, 3, (0, 1, 5)),
     "c01_quick": (c01_body, G_PIPE, 2, False), "c01_medium": (c01_body, G_PIPE1, 2, False), "c01_thorough": (c01_body, G_PIPE2, 2, False),
     "c01_three": (c01_body, G_PIPE, 3, False), "c01_matrix": (c01_body, G_PIPE, 2, True),
     "c01_nested2": (c01_body, G_NESTED2, 2, "single"), "c01_nested": (c01_body, G_NESTED, 2, "single"),
